@@ -109,6 +109,7 @@ structure Hit where
   kind : Kind
   name : Bytes
   rng : Rng
+  derived : Bool := false   -- computed by column arithmetic (payee estimate, tag halves, nameRange)
 deriving Repr, DecidableEq, Inhabited, BEq
 
 /-- The two sub-ranges `findTagAtPosition` derives from a tag. -/
@@ -125,25 +126,25 @@ def findTagAtPosition (tags : List Tag) (c : Cur) : Option Hit :=
   | none => none
   | some t =>
     let colonCol := t.range.start.col + u16lenB t.name
-    if c.char + 1 ≤ colonCol then some ⟨.tag, t.name, tagNameRng t⟩
-    else some ⟨.tagValue, t.value, tagValueRng t⟩
+    if c.char + 1 ≤ colonCol then some ⟨.tag, t.name, tagNameRng t, true⟩
+    else some ⟨.tagValue, t.value, tagValueRng t, true⟩
 
 /-- The posting part of the loop body of `findElementAtPosition`. -/
 def hoverPosting (c : Cur) (p : Posting) : Option Hit :=
-  if positionInRange c p.account.range then some ⟨.account, p.account.name, p.account.range⟩
+  if positionInRange c p.account.range then some ⟨.account, p.account.name, p.account.range, false⟩
   else match p.amount with
     | some a =>
-      if positionInRange c a.range then some ⟨.amount, a.raw, a.range⟩
+      if positionInRange c a.range then some ⟨.amount, a.raw, a.range, false⟩
       else findTagAtPosition p.tags c
     | none => findTagAtPosition p.tags c
 
 /-- The transaction part of the loop body of `findElementAtPosition`. -/
 def hoverTx (c : Cur) (tx : Transaction) : Option Hit :=
-  if positionInRange c tx.date.range then some ⟨.date, [], tx.date.range⟩
+  if positionInRange c tx.date.range then some ⟨.date, [], tx.date.range, false⟩
   else
     let payee := payeeOf tx
     if payee ≠ [] && positionInRange c (estimatePayeeRange tx payee) then
-      some ⟨.payee, payee, estimatePayeeRange tx payee⟩
+      some ⟨.payee, payee, estimatePayeeRange tx payee, true⟩
     else match tx.comments.findSome? (fun cm => findTagAtPosition cm.tags c) with
       | some h => some h
       | none => tx.postings.findSome? (hoverPosting c)
@@ -158,24 +159,49 @@ def hover (j : Journal) (c : Cur) : Option (Hit × LRange) :=
 
 /-! ### Definition, references, rename -/
 
+/-- `nameRange` (references.go): the range of a symbol's lexeme given where it starts. -/
+def nameRange (start : Pos) (name : Bytes) : Rng := ⟨start, ⟨start.line, start.col + u16lenB name, 0⟩⟩
+def accountNameRange (a : Account) : Rng := nameRange a.range.start a.name
+def directiveCommodityRange (c : Commodity) : Rng := nameRange c.range.start c.symbol
+
+/-- `postingCommodities`: amount, cost, assertion. -/
+def postingCommodities (p : Posting) : List Commodity :=
+  (match p.amount with | some a => [a.commodity] | none => []) ++
+  (match p.cost with | some c => [c.amount.commodity] | none => []) ++
+  (match p.assertion with | some b => [b.amount.commodity] | none => [])
+
+def commodityAt (c : Cur) (cm : Commodity) : Option Hit :=
+  if cm.symbol ≠ [] && positionInRange c cm.range then some ⟨.commodity, cm.symbol, cm.range, false⟩ else none
+
 def defPosting (c : Cur) (p : Posting) : Option Hit :=
-  if positionInRange c p.account.range then some ⟨.account, p.account.name, p.account.range⟩
-  else match p.amount with
-    | some a =>
-      if a.commodity.symbol ≠ [] && positionInRange c a.commodity.range then
-        some ⟨.commodity, a.commodity.symbol, a.commodity.range⟩
-      else none
-    | none => none
+  if positionInRange c (accountNameRange p.account) then
+    some ⟨.account, p.account.name, accountNameRange p.account, true⟩
+  else (postingCommodities p).findSome? (commodityAt c)
 
 def defTx (c : Cur) (tx : Transaction) : Option Hit :=
   let payee := payeeOf tx
   if payee ≠ [] && positionInRange c (estimatePayeeRange tx payee) then
-    some ⟨.payee, payee, estimatePayeeRange tx payee⟩
+    some ⟨.payee, payee, estimatePayeeRange tx payee, true⟩
   else tx.postings.findSome? (defPosting c)
+
+/-- The directive loop of `findDefinitionTarget`. -/
+def defDirective (c : Cur) : Directive → Option Hit
+  | .account a _ _ _ _ =>
+    if positionInRange c (accountNameRange a) then some ⟨.account, a.name, accountNameRange a, true⟩ else none
+  | .commodity cm _ _ _ _ =>
+    if cm.symbol ≠ [] && positionInRange c (directiveCommodityRange cm) then
+      some ⟨.commodity, cm.symbol, directiveCommodityRange cm, true⟩ else none
+  | .price _ cm p _ =>
+    if cm.symbol ≠ [] && positionInRange c (directiveCommodityRange cm) then
+      some ⟨.commodity, cm.symbol, directiveCommodityRange cm, true⟩
+    else commodityAt c p.commodity
+  | _ => none
 
 /-- `findDefinitionTarget` (kind ∈ payee, account, commodity). -/
 def findDefinitionTarget (j : Journal) (c : Cur) : Option Hit :=
-  j.transactions.findSome? (defTx c)
+  match j.transactions.findSome? (defTx c) with
+  | some h => some h
+  | none => j.directives.findSome? (defDirective c)
 
 /-- `compareDates a b < 0`. -/
 def dateLt (a b : Date) : Bool :=
@@ -211,15 +237,15 @@ def definitionHit (j : Journal) (t : Hit) : Option Hit :=
     match j.directives.findSome? (fun d => match d with
         | .account a _ _ _ r => if a.name == t.name then some r else none
         | _ => none) with
-    | some r => some ⟨.directive, t.name, r⟩
-    | none => (earliest none (accountUsages j t.name)).map fun x => ⟨.account, t.name, x.2⟩
+    | some r => some ⟨.directive, t.name, r, false⟩
+    | none => (earliest none (accountUsages j t.name)).map fun x => ⟨.account, t.name, x.2, false⟩
   | .commodity =>
     match j.directives.findSome? (fun d => match d with
         | .commodity cm _ _ _ r => if cm.symbol == t.name then some r else none
         | _ => none) with
-    | some r => some ⟨.directive, t.name, r⟩
-    | none => (earliest none (commodityUsages j t.name)).map fun x => ⟨.commodity, t.name, x.2⟩
-  | .payee => (earliest none (payeeUsages j t.name)).map fun x => ⟨.transaction, t.name, x.2⟩
+    | some r => some ⟨.directive, t.name, r, false⟩
+    | none => (earliest none (commodityUsages j t.name)).map fun x => ⟨.commodity, t.name, x.2, false⟩
+  | .payee => (earliest none (payeeUsages j t.name)).map fun x => ⟨.transaction, t.name, x.2, false⟩
   | _ => none
 
 /-- `Definition`. -/
@@ -230,26 +256,34 @@ def definition (j : Journal) (c : Cur) : List (Hit × LRange) :=
     | none => []
     | some h => [(h, astRangeToProtocol h.rng)]
 
+/-- The directive part of `findCommodityReferences`. -/
+def commodityRefDirective (sym : Bytes) (decl : Bool) : Directive → List Hit
+  | .commodity cm _ _ _ _ =>
+    if decl && cm.symbol == sym then [⟨.commodity, sym, directiveCommodityRange cm, true⟩] else []
+  | .price _ cm p _ =>
+    (if cm.symbol == sym then [(⟨.commodity, sym, directiveCommodityRange cm, true⟩ : Hit)] else []) ++
+    (if p.commodity.symbol == sym then [(⟨.commodity, sym, p.commodity.range, false⟩ : Hit)] else [])
+  | _ => []
+
 /-- The locations `findReferences` collects, in collection order (before sortAndDedup). -/
 def referenceHits (j : Journal) (t : Hit) (decl : Bool) : List Hit :=
   match t.kind with
   | .account =>
     (if decl then j.directives.filterMap (fun d => match d with
-        | .account a _ _ _ _ => if a.name == t.name then some ⟨.account, t.name, a.range⟩ else none
+        | .account a _ _ _ _ => if a.name == t.name then some ⟨.account, t.name, accountNameRange a, true⟩ else none
         | _ => none) else []) ++
     j.transactions.flatMap fun tx =>
-      (tx.postings.filter (fun p => p.account.name == t.name)).map fun p => ⟨.account, t.name, p.account.range⟩
+      (tx.postings.filter (fun p => p.account.name == t.name)).map fun p =>
+        ⟨.account, t.name, accountNameRange p.account, true⟩
   | .commodity =>
-    (if decl then j.directives.filterMap (fun d => match d with
-        | .commodity cm _ _ _ _ => if cm.symbol == t.name then some ⟨.commodity, t.name, cm.range⟩ else none
-        | _ => none) else []) ++
+    j.directives.flatMap (commodityRefDirective t.name decl) ++
     j.transactions.flatMap fun tx =>
-      tx.postings.filterMap fun p => match p.amount with
-        | some a => if a.commodity.symbol == t.name then some ⟨.commodity, t.name, a.commodity.range⟩ else none
-        | none => none
+      tx.postings.flatMap fun p =>
+        ((postingCommodities p).filter (fun cm => cm.symbol == t.name)).map fun cm =>
+          (⟨.commodity, t.name, cm.range, false⟩ : Hit)
   | .payee =>
     (j.transactions.filter (fun tx => payeeOf tx == t.name)).map fun tx =>
-      ⟨.payee, t.name, estimatePayeeRange tx t.name⟩
+      ⟨.payee, t.name, estimatePayeeRange tx t.name, true⟩
   | _ => []
 
 /-- The order of `sortAndDedup` (one URI): start line, then start character, as `uint32`. -/
@@ -306,14 +340,14 @@ def payeeSymbols : List Bytes → List Transaction → List Hit
   | seen, tx :: rest =>
     let p := payeeOf tx
     if p ≠ [] && !seen.contains p then
-      ⟨.payee, p, estimatePayeeRange tx p⟩ :: payeeSymbols (p :: seen) rest
+      ⟨.payee, p, estimatePayeeRange tx p, true⟩ :: payeeSymbols (p :: seen) rest
     else payeeSymbols seen rest
 
 /-- `extractSymbols` with the empty query. -/
 def workspaceSymbolHits (j : Journal) : List Hit :=
   j.directives.filterMap (fun d => match d with
-    | .account a _ _ _ _ => some ⟨.account, a.name, a.range⟩
-    | .commodity cm _ _ _ _ => some ⟨.commodity, cm.symbol, cm.range⟩
+    | .account a _ _ _ _ => some ⟨.account, a.name, a.range, false⟩
+    | .commodity cm _ _ _ _ => some ⟨.commodity, cm.symbol, cm.range, false⟩
     | _ => none) ++
   payeeSymbols [] j.transactions
 
